@@ -1,4 +1,5 @@
 import DimodProofs.CqmLiftMore
+import DimodProofs.CqmHistory
 
 /-! # C05 — a CQM keeps every expression attached to the right variables
 
@@ -546,6 +547,40 @@ theorem cascade_refines (m m' : Cqm) (hwf : CqmWF m) (hl : CqmLabelsOK m) (label
 `is_onehot`, depends on the stored adjacency, which a polynomial does not show), and the polynomial part of the copying
 `fix_variables` (C03). -/
 
+/-! ## the label-level refinement folded over histories -/
+
+/-- **History-level refinement (fold over any list of operations of the functional fragment).**  Take any reachable state —
+    the model after an arbitrary history `pre` of public mutations — and continue with any list `ops` of operations for which
+    the specification's step is a function of the list of label-keyed polynomials (`CqmP.specStep`: every mutation through
+    the objective / constraint views, `set_objective` / hard `add_constraint` from term iterables, `remove_constraint` with
+    and without cascade, `fix_variable`, `fix_variables` in place) and whose calls all return normally.  Then the labels, types,
+    bounds, objective and every constraint (terms, sense, rhs, weight, penalty, mark) of the resulting model are exactly what
+    folding the specification over `ops` produces from the abstraction of the state before: `absCqm` commutes with the run.
+    Gap (hence `_partial`): operations outside the fragment (`specStep = none`: builders taking models / comparisons /
+    discrete forms, soft `add_constraint`, `add_variable`, `remove_variable`, `relabel_*`, `flip_variable`, `change_vartype`,
+    `spin_to_binary`, bounds, `deepcopy`) have their per-step statements above (`remove_refines`, `relabel_refines`,
+    `cqm_step_refines_model`, …, some of them relational), applicable at every point of every history by
+    `refinement_hypotheses_hold`, but are not folded into one specification function here; a history may interleave them
+    freely between fragments (`pre` is arbitrary). -/
+theorem history_refines_partial (pre ops : List Cqm.Op) (hpre : ∀ op ∈ pre, OpOK op) (hops : ∀ op ∈ ops, OpOK op)
+    (hsucc : Succeeds (({} : Cqm).run pre) ops) (s' : LCqm)
+    (hspec : specRun (absCqm (({} : Cqm).run pre)) ops = some s') :
+    absCqm (({} : Cqm).run (pre ++ ops)) = s' := by
+  have hinv : RefInv (({} : Cqm).run pre) :=
+    ⟨history_inv pre hpre, history_labels pre, history_keysym pre hpre, history_sorted pre hpre⟩
+  have : ({} : Cqm).run (pre ++ ops) = (({} : Cqm).run pre).run ops := by
+    unfold Cqm.run; rw [List.foldl_append]
+  rw [this]
+  exact specRun_refines ops hinv hops hsucc s' hspec
+
+/-- one step of it, from any state satisfying the invariants: where the specification's step is defined and the call
+    succeeds, the abstraction of the new state is the specification's step of the abstraction of the old one, and the
+    invariants hold again (so the statement applies to the next step) -/
+theorem step_refines_spec (m : Cqm) (h : RefInv m) (op : Cqm.Op) (hop : OpOK op) (s' : LCqm)
+    (hs : specStep (absCqm m) op = some s') (hok : (m.step op).2 = none) :
+    absCqm (m.step op).1 = s' ∧ RefInv (m.step op).1 :=
+  ⟨specStep_refines h op s' hs hok, refInv_step h op hop⟩
+
 /-! ## non-vacuity: a concrete history on the executable model -/
 
 /-- variables x(BINARY) i(INTEGER) y(BINARY); objective 2i + 3i² + x·y; constraint `x + i <= 1`; remove `x` -/
@@ -597,6 +632,18 @@ example : (demo.step (.addConstraintModel demoModel .le 1 (.str "m") false (some
     ∧ (demo.step (.viewSetWeight (.str "c") (some 2) 1)).2 = some .value      -- i is INTEGER: no quadratic penalty
     ∧ ((demo.run [.setObjectiveTerms [⟨[.str "x", .str "y"], 1⟩]]).step (.removeConstraint (.str "c") true)).1.labels
         = [.str "x", .str "y"] := by
+  decide +kernel
+
+/-- `history_refines_partial` is not vacuous: on `demo` this continuation lies in the fragment and every call returns -/
+example :
+    let ops : List Cqm.Op := [.viewAddLinear none (.str "x") 2, .viewAddQuadratic (some (.str "c")) (.str "x") (.str "i") 3,
+                              .fixVariable (.str "x") 1, .removeConstraint (.str "c") true]
+    (specRun (absCqm demo) ops).isSome = true
+    ∧ (demo.step (ops.getD 0 .deepcopy)).2 = none
+    ∧ ((demo.run (ops.take 1)).step (ops.getD 1 .deepcopy)).2 = none
+    ∧ ((demo.run (ops.take 2)).step (ops.getD 2 .deepcopy)).2 = none
+    ∧ ((demo.run (ops.take 3)).step (ops.getD 3 .deepcopy)).2 = none
+    ∧ (demo.run ops).labels = [.str "i", .str "y"] := by
   decide +kernel
 
 end C05
